@@ -19,9 +19,9 @@ CLAIMS = {
   design="§3 C04"),
  "C03": dict(
   technique="Independent executable checker written in Lean (SpecCheck: own parser, the property's rule list) run on the byte-exact allocation model's image after every call (verdict transferred to the real file by equal length and hash) and directly on real snapshots incl. an 18 MB image with two DIFAT sectors; Lean proofs: after every history of stream-level operations no two FAT cells point at the same sector, none points into free space, and the chain heads (directory, MiniFAT, mini stream, every stream >= 4096 bytes) are distinct and pointed at by nothing, hence the chains are pairwise disjoint, every sector in use lies on exactly one owner's chain and every owner's chain walk succeeds; no-sharing also for the MiniFAT and the mini chains of streams < 4096 bytes (invariants by induction over all operations of the allocation model); after every API history the free list is exactly the FREE cells, a handed-out sector was FREE or new; FAT sectors are entered in the DIFAT and marked; tree rules from the directory model's invariant",
-  text="Proof: CfbVerif.Props.C03 — C03_no_shared_sector / C03_chains_disjoint (Phys/NoShare.lean: NSH = FAT injective on regular values, no pointer into FREE cells, heads distinct/used/unpointed; kept by claim, link, cut, free-head and lifted through allocate_sector incl. FAT/DIFAT growth, extend_chain, free_chain(_after), chain and mini-chain write/set_len, the write/resize case tables, remove, allocate_dir_entry, reopen; Reach-based disjointness), C03_no_shared_mini_sector / C03_mini_chains_disjoint (Phys/NoShareMini.lean: the MiniFAT can shrink, so every operation is classified as releasing or allocating and each stream-level step is a release part followed by an allocation part), C03_every_used_sector_owned_once / C03_owner_walks_succeed (Phys/Chains.lean, Phys/NoLeak.lean: IsChain as lists, NC = NSH + every head has a chain + every END/pointer cell lies on a head's chain; kept by the same table updates and lifted the same way: no leaks, exactly one owner, the library's walk from every owner succeeds and returns the chain; Phys/NoLeakMini.lean: the same for the MiniFAT and the streams below 4096 bytes), C03_table_sectors_marked (Phys/Marks.lean, for every API history: FATSECT exactly on the DIFAT's sectors, DIFSECT exactly on the DIFAT sectors, otherwise FREE/END/a sector number) and C03_partition (every sector is free and on the free list, a listed FAT sector, a DIFAT sector, or on exactly one owner's chain), C03_handle_call_keeps (a handle call's store-operation log keeps NSH), C03_handed_out_was_free, C03_extension_new, C03_fat_sector_marked; the allocator invariant after every API history (inv_reachable, inv_allocateSector); sibling trees are search trees without red-red after every history (C01_reachable). "
+  text="Proof: CfbVerif.Props.C03 — C03_no_shared_sector / C03_chains_disjoint (Phys/NoShare.lean: NSH = FAT injective on regular values, no pointer into FREE cells, heads distinct/used/unpointed; kept by claim, link, cut, free-head and lifted through allocate_sector incl. FAT/DIFAT growth, extend_chain, free_chain(_after), chain and mini-chain write/set_len, the write/resize case tables, remove, allocate_dir_entry, reopen; Reach-based disjointness), C03_no_shared_mini_sector / C03_mini_chains_disjoint (Phys/NoShareMini.lean: the MiniFAT can shrink, so every operation is classified as releasing or allocating and each stream-level step is a release part followed by an allocation part), C03_every_used_sector_owned_once / C03_owner_walks_succeed (Phys/Chains.lean, Phys/NoLeak.lean: IsChain as lists, NC = NSH + every head has a chain + every END/pointer cell lies on a head's chain; kept by the same table updates and lifted the same way: no leaks, exactly one owner, the library's walk from every owner succeeds and returns the chain; Phys/NoLeakMini.lean: the same for the MiniFAT and the streams below 4096 bytes), C03_table_sectors_marked (Phys/Marks.lean, for every API history: FATSECT exactly on the DIFAT's sectors, DIFSECT exactly on the DIFAT sectors, otherwise FREE/END/a sector number) and C03_partition (every sector is free and on the free list, a listed FAT sector, a DIFAT sector, or on exactly one owner's chain), C03_chain_length_matches_size (Phys/ChainLen.lean: every chain operation returns the sector list that IS the chain of its head in the new table, with the expected length, and leaves the chains of all other owners verbatim; lifted through the write and resize case tables: every stream of at least 4096 bytes has exactly ceil(length / sector size) sectors, for histories whose writes start at or before the stream's end), C03_sectors_whole (Phys/SecSize.lean, for every API history: every sector has exactly the sector size, so reads return the requested number of bytes), C03_handle_call_keeps (a handle call's store-operation log keeps NSH), C03_handed_out_was_free, C03_extension_new, C03_fat_sector_marked; the allocator invariant after every API history (inv_reachable, inv_allocateSector); sibling trees are search trees without red-red after every history (C01_reachable). "
        "Tie: every call boundary of every generated history (both versions, sizes on all boundaries, handles, reopen, cycles, several FAT sectors) is judged by SpecCheck on the model image, which the lock-step shows identical to the real bytes; mismatching boundaries and sampled snapshots are judged on the real bytes; the large file exercises >109 FAT sectors and two DIFAT sectors.",
-  note="SpecCheck is run, not proved complete or sound; the theorems cover the allocator core (single ownership of sectors), not the whole rule list. C03_no_shared_sector quantifies over histories of the stream-level operations that physOf composes, with stream lengths carried along; that physOf passes exactly the directory's stream lengths is lock-stepped, not proved. Hypotheses: FAT size <= MAX_REGULAR_SECTOR+1 in the final state, MiniFAT size <= MAX_REGULAR_SECTOR+1 in every state between operations (the format's own limits; the model's Nat indices do not wrap where the code's u32 would). The mini stream's chain may be longer than needed (never shrinks): accepted. Trusted: Lean kernel + compiler for the executable checker, translator, hooks, harness.",
+  note="SpecCheck is run, not proved complete or sound; the theorems cover the allocator core (single ownership of sectors), not the whole rule list. C03_no_shared_sector quantifies over histories of the stream-level operations that physOf composes, with stream lengths carried along; that physOf passes exactly the directory's stream lengths is lock-stepped, not proved. Hypotheses: FAT size <= MAX_REGULAR_SECTOR+1 in the final state, MiniFAT size <= MAX_REGULAR_SECTOR+1 in every state between operations (the format's own limits; the model's Nat indices do not wrap where the code's u32 would). C03_chain_length_matches_size assumes each write starts at or before the end of its stream (WritesInRange; the handle layer's windows do, which C06 lock-steps) and covers regular chains; the mini-chain analogue (ceil(length/64) mini sectors) is checked by SpecCheck only. The mini stream's chain may be longer than needed (never shrinks): accepted. Trusted: Lean kernel + compiler for the executable checker, translator, hooks, harness.",
   design="§3 C03"),
  "C15": dict(
   technique="Lean 4 invariant proof by induction over all API histories of a byte-exact allocation model (the free list is exactly the set of FREE cells of the FAT, each once, after every history; hence the file grows only when not a single FREE sector exists and whatever is handed out was FREE or new; n allocations with n free sectors do not grow the file; freeing a chain returns every sector; same for mini sectors) + lock-step of API histories comparing the complete file image and allocator caches after every call + cycle oracle on the implementation's file length",
